@@ -252,6 +252,52 @@ class Repo:
         if len(self.modules) < 50:
             raise AnalysisError(
                 f"only {len(self.modules)} modules found under {self.root}")
+        self._positional_calls()
+
+    def _positional_calls(self) -> None:
+        """Calls of functions / classes of the analysed packages that pass
+        arguments by keyword are rewritten, in the parsed trees, to pass
+        them by position when the keywords name exactly the next parameters
+        of the callee (`f(a, y=1, x=2)` -> `f(a, 2, 1)` for `def f(p, x,
+        y)`): the same call, in the one spelling the rules read.  The
+        evaluation order of the arguments may differ; no rule depends on
+        argument side effects."""
+        for mod in list(self.modules.values()):
+            for c in ast.walk(mod.tree):
+                if not (isinstance(c, ast.Call) and c.keywords) or any(
+                        k.arg is None for k in c.keywords) or any(
+                        isinstance(a, ast.Starred) for a in c.args):
+                    continue
+                if not isinstance(c.func, (ast.Name, ast.Attribute)):
+                    continue
+                try:
+                    tgt = self.resolve_expr(mod, c.func)
+                except Exception:  # noqa: BLE001
+                    continue
+                params: list[str] | None = None
+                tm = getattr(tgt, "module", None)
+                if tm is None or self.modules.get(
+                        getattr(tm, "name", "")) is not tm:
+                    continue         # not a function of these packages
+                if isinstance(tgt, FuncInfo) and tgt.cls is None:
+                    params = list(tgt.params)
+                elif isinstance(tgt, ClassInfo):
+                    ini = tgt.methods.get("__new__") or tgt.methods.get(
+                        "__init__")
+                    if ini is not None and tgt.methods.get(
+                            "__new__") is None:
+                        params = list(ini.params[1:])
+                    elif ini is not None:
+                        params = list(ini.params[1:])
+                if params is None:
+                    continue
+                rest = params[len(c.args):]
+                kw = {k.arg: k.value for k in c.keywords}
+                take = rest[:len(kw)]
+                if set(take) != set(kw):
+                    continue
+                c.args = list(c.args) + [kw[p_] for p_ in take]
+                c.keywords = []
 
     # ------------------------------------------------------------ lookup
     def module(self, name: str) -> Module:
